@@ -9,6 +9,8 @@ Rule-agnostic: every registered verit_* macro's *eval* is offered every member o
   (c) linear arithmetic: la_generic / la_disequality / la_rw_eq / *_simplify on literals a*x + b*y ~ c with Farkas
       coefficients from {1,2,1/2,-1}.
   (d) quantifiers: forall_inst and qnt_* on closed instances over one unary predicate.
+  (e) boolean simplification equivalences lhs <--> rhs over p q r (nested connectives, ite, constants) for the rewriting rules.
+  (f) comparison clauses: all clauses of <= 3 literals over x ~ y / y ~ x and their negations (orientation / direction near misses).
 Oracle (S): whenever eval accepts, z3 proves  /\\ premises --> returned clause  (propositional + EUF + LIA/LRA +
 quantifiers through holsmt; finite-model confirmation of counter-models), and the returned hypotheses are those of the premises.
 """
@@ -41,7 +43,10 @@ BUDGET_S = {'quick': 240, 'thorough': 900}
 def bounds(tier):
     return {'propositional': 'premise formulas depth <= 1 over p q (%s), clauses of <= 3 literals, 0-2 premises' % ('quick: second premise sampled' if tier == 'quick' else 'all pairs'),
             'equality': 'constants a b c, f unary, P unary; clauses <= 3 literals', 'arithmetic': 'x y, coefficients [-2,2], constants [-1,2], int and real; integer rounding: all pairs of literals k*x ~ c (k = 2,3,4; c in [-5,5]; 4 relations, both polarities) with Farkas coefficients (1,1)',
-            'quantifier': 'one predicate, <= 2 bound variables'}
+            'quantifier': 'one predicate, <= 2 bound variables',
+            'boolean_simplification': 'lhs <--> rhs for the *_simplify / ac_simp / connective_def / refl / bfun_elim / not_not rules: lhs = one connective over literals of p q r true false, two nested connectives '
+                                      '(%s), if-then-else, negations; rhs = literal, constant or one connective over literals (108)' % ('all 7^3 literal triples' if tier == 'thorough' else 'all triples of plain atoms + 1500 sampled triples with negated/constant members'),
+            'comparison_clauses': 'all clauses of <= 3 literals over s ~ t, ~(s ~ t) with (s,t) in {(x,y),(y,x)}, ~ in {<=,<,>=,>,=}, int and real, as a clause and as one disjunction, offered to every rule'}
 
 
 _S = {}
@@ -343,6 +348,102 @@ def run_cong(u, out):
     out['samples'].append({'congruence_clause': [str(c) for c in cls[3]], 'clauses': len(cls)})
 
 
+def bsimp_lhs(tier, seed):
+    """Left-hand sides of boolean simplification equivalences over p q r: one connective over literals, two nested connectives
+    (both associations), if-then-else, negations."""
+    from kernel.term import BoolVars, Not, And, Or, Implies, Eq, Const, true, false
+    from kernel.type import BoolType, TFun
+    p, q, r = BoolVars('p q r')
+    ite = lambda c, a, b: Const('IF', TFun(BoolType, BoolType, BoolType, BoolType))(c, a, b)
+    L = [p, q, r, Not(p), Not(q), true, false]
+    ops = (And, Or, Implies, Eq)
+    out = []
+    for f in ops:
+        for a in L:
+            for b in L:
+                out.append(f(a, b))
+                out.append(Not(f(a, b)))
+    for a in L:
+        out.append(Not(Not(a)))
+        for b in L:
+            for c in L:
+                out.append(ite(a, b, c))
+    nested = []
+    for f in ops:
+        for g in ops:
+            for a in L:
+                for b in L:
+                    for c in L:
+                        nested.append((f(a, g(b, c)), all(x in (p, q, r) for x in (a, b, c))))
+                        nested.append((f(g(a, b), c), all(x in (p, q, r) for x in (a, b, c))))
+    if tier == 'thorough':
+        out += [t for t, _ in nested]
+    else:
+        out += [t for t, plain in nested if plain]
+        rest = [t for t, plain in nested if not plain]
+        out += random.Random('c18b-%s' % seed).sample(rest, 1500)
+    return out
+
+
+def bsimp_rhs():
+    from kernel.term import BoolVars, Not, And, Or, Implies, Eq, true, false
+    p, q, r = BoolVars('p q r')
+    L = [p, q, r, Not(p), Not(q)]
+    return [p, q, r, Not(p), Not(q), Not(r), true, false] + [f(a, b) for f in (And, Or, Implies, Eq) for a in L for b in L]
+
+
+def bsimp_rules():
+    return [r for r in rules() if 'simplify' in r or r in ('verit_ac_simp', 'verit_connective_def', 'verit_refl', 'verit_bfun_elim', 'verit_not_not')]
+
+
+def run_bsimp(u, out):
+    from kernel.term import Eq
+    _, tier, seed, lo, hi = u
+    lhs = bsimp_lhs(tier, seed)
+    rhs = bsimp_rhs()
+    rl = bsimp_rules()
+    for i in range(lo, min(hi, len(lhs))):
+        for j, r in enumerate(rhs):
+            g = Eq(lhs[i], r)
+            for rn in rl:
+                offer(rn, (g,), [], out, {'part': 'bsimp', 'tier': tier, 'seed': seed, 'i': i, 'j': j, 'rule': rn})
+    out['samples'].append({'boolean_simplification_goal': str(Eq(lhs[lo], rhs[0])), 'lhs': len(lhs), 'rhs': len(rhs), 'rules': len(rl)})
+
+
+def arith3_family(Tn):
+    """Every literal  s ~ t / ~(s ~ t)  over the ordered pairs (x,y) (y,x) and the five relations: clauses of <= 3 of them contain every
+    orientation / direction near miss of the comparison lemmas (la_disequality, la_totality, la_tautology, comp_simplify, ...)."""
+    from kernel.type import IntType, RealType
+    from kernel.term import Var, Eq, Not
+    from kernel import term as T
+    ty = IntType if Tn == 'int' else RealType
+    x, y = Var('x', ty), Var('y', ty)
+    atoms = []
+    for (l, r) in ((x, y), (y, x)):
+        atoms += [T.less_eq(ty)(l, r), T.less(ty)(l, r), T.greater_eq(ty)(l, r), T.greater(ty)(l, r), Eq(l, r)]
+    return atoms + [Not(a) for a in atoms]
+
+
+def run_arith3(u, out):
+    from kernel.term import Or
+    _, tier, seed, Tn, i0 = u
+    lits = arith3_family(Tn)
+    rl = [r for r in rules() if r != 'verit_th_resolution']
+    first = lits[i0]
+    for n in (1, 2, 3):
+        for rest in itertools.product(range(len(lits)), repeat=n - 1):
+            cl = (first,) + tuple(lits[k] for k in rest)
+            rec = {'part': 'arith3', 'T': Tn, 'cl': [i0] + list(rest)}
+            for rn in rl:
+                offer(rn, cl, [], out, dict(rec, rule=rn))
+            if n > 1:
+                # some lemmas take the whole disjunction as one argument
+                one = (Or(*cl),)
+                for rn in rl:
+                    offer(rn, one, [], out, dict(rec, rule=rn, variant='disj'))
+    out['samples'].append({'comparison_clause_first_literal': str(first), 'type': Tn})
+
+
 def round_family(k):
     """Integer literals over the single form k*x: k*x ~ c and their negations, c in [-5,5] (integer rounding of bounds)."""
     from kernel.type import IntType
@@ -451,6 +552,12 @@ def units(tier, seed):
             us.append(('arith', tier, seed, Tn, lo, lo + 50))
     us.append(('simp', tier, seed))
     us.append(('cong', tier, seed))
+    nb = len(bsimp_lhs(tier, seed))
+    for lo in range(0, nb, 100):
+        us.append(('bsimp', tier, seed, lo, lo + 100))
+    for Tn in ('int', 'real'):
+        for i in range(len(arith3_family(Tn))):
+            us.append(('arith3', tier, seed, Tn, i))
     for k in (2, 3, 4):
         nl = len(round_family(k))
         for lo in range(0, nl, 11):
@@ -479,6 +586,10 @@ def run_unit(u):
         run_simp(u, out)
     elif u[0] == 'cong':
         run_cong(u, out)
+    elif u[0] == 'bsimp':
+        run_bsimp(u, out)
+    elif u[0] == 'arith3':
+        run_arith3(u, out)
     else:
         run_quant(u, out)
     del out['_seen']
@@ -552,6 +663,16 @@ def rebuild(c):
         return rule, (simp_family()[c['i']],), []
     if part == 'cong':
         return rule, cong_family()[c['i']], []
+    if part == 'bsimp':
+        from kernel.term import Eq
+        return rule, (Eq(bsimp_lhs(c['tier'], c['seed'])[c['i']], bsimp_rhs()[c['j']]),), []
+    if part == 'arith3':
+        lits = arith3_family(c['T'])
+        cl = tuple(lits[i] for i in c['cl'])
+        if c.get('variant') == 'disj':
+            from kernel.term import Or
+            cl = (Or(*cl),)
+        return rule, cl, []
     if part == 'round':
         from kernel.term import Number
         from kernel.type import IntType
